@@ -60,19 +60,19 @@ type netWorld struct {
 	topics []string
 	gp     GossipSubParams
 
-	conn      map[[2]int]bool
+	conn       map[[2]int]bool
 	fanoutOnly map[string]bool // "node|topic"
-	pubs      []*netPub
-	evhs      []*netEvh
-	payloads  map[string]*netPub // data -> publication
-	lastChurn time.Duration
-	nextSeq   int
-	kills     map[[2]int]int // per pair: stream deaths caused so far (resets and disconnects)
+	pubs       []*netPub
+	evhs       []*netEvh
+	payloads   map[string]*netPub // data -> publication
+	lastChurn  time.Duration
+	nextSeq    int
+	kills      map[[2]int]int // per pair: stream deaths caused so far (resets and disconnects)
 
-	extraOps  map[string]func(it Item)
-	afterItem []func(it Item)
+	extraOps    map[string]func(it Item)
+	afterItem   []func(it Item)
 	armLoopPark bool
-	vmu       sync.Mutex
+	vmu         sync.Mutex
 }
 
 func pairKey(a, b int) [2]int {
@@ -121,7 +121,6 @@ func newNetWorld(s *sim) *netWorld {
 	w.gp = gsParamsFromPlan(p)
 	return w
 }
-
 
 // start creates the nodes described by the plan.
 func (w *netWorld) start() bool {
